@@ -995,7 +995,8 @@ def stepRes (s : St) (line : String) : Option (St × String) :=
       let mem := kvNat args "mem" 1000
       let mg := (kv args "merge").getD "cat"
       let fk : Option Nat := if mg.startsWith "fail" then (mg.drop 4).toString.toNat? else none
-      let pooled := (kv args "pool").getD "-" != "-"
+      -- a pool object with zero threads leaves the sorter's inner pool NULL: chunks are then written synchronously
+      let pooled := (kv args "pool").getD "-" != "-" && kvNat args "pth" 1 != 0
       upd s (.sorter i { limit := if mem < 64 then 64 else mem, eo := kvNat args "eo" 8, failKey := fk, pooled }) "ok"
   | ["res.sadd", i, k, vl] => match i.toNat?, k.toNat?, vl.toNat? with
     | some i, some k, some vl =>
